@@ -844,6 +844,12 @@ func freshSlice(v ssa.Value, depth int) (bool, string) {
 		if al, ok := x.X.(*ssa.Alloc); ok && al.Parent() == v.Parent() {
 			return true, ""
 		}
+		// … except a full slice expression with capacity 0 (`s[:0:0]`, the head of the clone
+		// idiom `append(s[:0:0], s...)`): it has no element and no room, so nothing can be read
+		// or written through it and an append to it allocates a new array
+		if x.Max != nil && isIntConst(x.Max, 0) {
+			return true, ""
+		}
 		return false, "re-slice of " + shortType(x.X.Type()) + " " + x.X.Name()
 	case *ssa.Call:
 		if b, ok := x.Call.Value.(*ssa.Builtin); ok && b.Name() == "append" {
